@@ -13,7 +13,8 @@
        was not deleted (without --dry-run);   3 --dry-run or a failing command deleted something;
      4 a whole group was removed under a non-empty policy;
      5 an empty policy removed something without --unsafe-allow-remove-all + filter, or the command
-       did not fail as documented;   6 explicit ids: deleted set differs from the named snapshots. *)
+       did not fail as documented;   6 explicit ids: deleted set differs from the named snapshots;
+     7 `restic check` finds the repository damaged afterwards (prune hand-off after failed deletes). *)
 From Restic Require Import Base.Prelude Model.C22m Model.C24m.
 
 Module C23m.
@@ -43,7 +44,8 @@ Inductive result :=
 
 Record opts := mkO { o_ids : bool;              (* explicit snapshot ids given *)
                      o_group : C24m.gopts; o_pol : C22m.policy;
-                     o_unsafe : bool; o_filter_empty : bool; o_dry : bool }.
+                     o_unsafe : bool; o_filter_empty : bool; o_dry : bool;
+                     o_prune : bool }.
 
 Definition group_remove (now : C22m.tm) (p : C22m.policy) (g : list snap) : list N * bool :=
   let vs := C22m.apply_policy now (map to22 g) p in
@@ -68,29 +70,45 @@ Definition run_forget (now : C22m.tm) (o : opts) (sel : list snap) : result :=
 Definition deleted (o : opts) (r : result) : list N :=
   match r with Ok rm => if o_dry o then [] else rm | _ => [] end.
 
-(* ------------------------------------------------------------------ cases *)
-Inductive rkind := RNoPolicy | RUnsafeNeedsFilter | RGuard | ROther | ROk.
-
-Record case := mkCase {
-  c_now : C22m.tm;
-  c_opts : opts;
-  c_all : list N;               (* snapshot ids before *)
-  c_sel : list snap;            (* the selected ones (input order = processing order) *)
-  c_kind : rkind;               (* how the command ended *)
-  c_reported : option (list N); (* ids listed as "remove" in the JSON output, if any was printed *)
-  c_after : list N }.           (* snapshot ids afterwards *)
-
 Definition memN (i : N) (l : list N) : bool := existsb (N.eqb i) l.
 Definition subsetN (a b : list N) : bool := forallb (fun i => memN i b) a.
 Definition seteqN (a b : list N) : bool := subsetN a b && subsetN b a.
 Definition diffN (a b : list N) : list N := filter (fun i => negb (memN i b)) a.
 
+Inductive rkind := RNoPolicy | RUnsafeNeedsFilter | RGuard | ROther | ROk | RFailed.
 Definition rkind_of (r : result) : rkind :=
   match r with ENoPolicy => RNoPolicy | EUnsafeNeedsFilter => RUnsafeNeedsFilter | EGuard => RGuard
              | EOther => ROther | Ok _ => ROk end.
+
+(* the execution layer after the decision: ParallelRemove of the removal set ([fail] = snapshot
+   files whose removal fails), "failed to remove" error BEFORE the prune hand-off, prune only after
+   a fully successful (or dry) removal of a non-empty set *)
+Record exec := mkX { x_deleted : list N; x_kind : rkind; x_prune : bool }.
+Definition execute (o : opts) (fail : list N) (r : result) : exec :=
+  match r with
+  | Ok rm =>
+      if o_dry o then mkX [] ROk (o_prune o && negb (is_nil rm))
+      else if is_nil (filter (fun i => memN i fail) rm) then mkX rm ROk (o_prune o && negb (is_nil rm))
+      else mkX (diffN rm fail) RFailed false
+  | other => mkX [] (rkind_of other) false
+  end.
+
+(* ------------------------------------------------------------------ cases *)
+Record case := mkCase {
+  c_now : C22m.tm;
+  c_opts : opts;
+  c_all : list N;               (* snapshot ids before *)
+  c_sel : list snap;            (* the selected ones (input order = processing order) *)
+  c_fail : list N;              (* snapshot files whose Remove was made to fail by the harness *)
+  c_kind : rkind;               (* how the command ended *)
+  c_reported : option (list N); (* ids listed as "remove" in the JSON output, if any was printed *)
+  c_after : list N;             (* snapshot ids afterwards *)
+  c_check_ok : bool }.          (* `restic check` afterwards finds the repository intact *)
+
 Definition rkind_eqb (a b : rkind) : bool :=
   match a, b with
-  | RNoPolicy, RNoPolicy | RUnsafeNeedsFilter, RUnsafeNeedsFilter | RGuard, RGuard | ROther, ROther | ROk, ROk => true
+  | RNoPolicy, RNoPolicy | RUnsafeNeedsFilter, RUnsafeNeedsFilter | RGuard, RGuard | ROther, ROther
+  | ROk, ROk | RFailed, RFailed => true
   | _, _ => false
   end.
 
@@ -98,19 +116,29 @@ Definition oracle_code (c : case) : nat :=
   let o := c_opts c in
   let del := diffN (c_all c) (c_after c) in
   let sel_ids := map s_id (c_sel c) in
-  if negb (subsetN (c_after c) (c_all c)) then 2%nat
+  let ok := rkind_eqb (c_kind c) ROk in
+  let failed := rkind_eqb (c_kind c) RFailed in
+  if negb (c_check_ok c) then 7%nat
+  else if negb (subsetN (c_after c) (c_all c)) then 2%nat
   else if negb (subsetN del sel_ids) then 2%nat
-  else if (o_dry o || negb (rkind_eqb (c_kind c) ROk)) && negb (is_nil del) then 3%nat
+  else if (o_dry o || negb (ok || failed)) && negb (is_nil del) then 3%nat
+  else if failed && (is_nil (c_fail c) || o_dry o) then 2%nat
+  else if negb (is_nil (filter (fun i => memN i (c_fail c)) del)) then 2%nat
   else if o_ids o then
-    (if rkind_eqb (c_kind c) ROk && negb (o_dry o) && negb (seteqN del sel_ids) then 6%nat else 0%nat)
+    (if (ok || failed) && negb (o_dry o) && negb (seteqN del (diffN sel_ids (c_fail c))) then 6%nat
+     else if ok && negb (o_dry o) && negb (is_nil (filter (fun i => memN i (c_fail c)) sel_ids)) then 6%nat
+     else 0%nat)
   else if policy_empty (o_pol o) && negb (o_unsafe o && negb (o_filter_empty o))
-          && (negb (is_nil del) || rkind_eqb (c_kind c) ROk) then 5%nat
+          && (negb (is_nil del) || ok || failed) then 5%nat
   else if negb (policy_empty (o_pol o))
           && negb (forallb (fun g : C24m.gkey * list snap =>
                               existsb (fun s => memN (s_id s) (c_after c)) (snd g))
                            (group_by (o_group o) (c_sel c))) then 4%nat
   else match c_reported c with
-       | Some rep => if rkind_eqb (c_kind c) ROk && negb (o_dry o) && negb (seteqN del rep) then 2%nat else 0%nat
+       | Some rep =>
+           if ok && negb (o_dry o) && negb (seteqN del rep) then 2%nat
+           else if failed && negb (seteqN del (diffN rep (c_fail c))) then 2%nat
+           else 0%nat
        | None => 0%nat
        end.
 
@@ -118,8 +146,9 @@ Definition check_C23 (c : case) : bool := Nat.eqb (oracle_code c) 0.
 
 Definition model_agrees (c : case) : bool :=
   let r := run_forget (c_now c) (c_opts c) (c_sel c) in
-  rkind_eqb (c_kind c) (rkind_of r)
-  && seteqN (diffN (c_all c) (c_after c)) (deleted (c_opts c) r)
+  let x := execute (c_opts c) (c_fail c) r in
+  rkind_eqb (c_kind c) (x_kind x)
+  && seteqN (diffN (c_all c) (c_after c)) (x_deleted x)
   && match c_reported c, r with
      | Some rep, Ok rm => seteqN rep rm
      | _, _ => true
